@@ -10,6 +10,7 @@ import tempfile
 from hypothesis import strategies as st
 
 from pbt import ci as cim, im as imm, ti as tim, manifests as mf
+from pbt.props.c01 import diff as c01_diff
 from pbt.runner import must, check, Violation, HarnessError, VERIF_DIR, REPO
 
 PROPERTY = "C08"
@@ -164,6 +165,10 @@ def inprocess_case(case):
                 mf.extra_model_apply(model, op)
         got = json.loads(first)["payload"][fmt]
         check(got == model, "caller-ordered-list-reordered", lambda: "%s: payload differs from the reference model (caller-ordered lists must keep their order)" % fmt)
+    if fmt == "images":
+        # additional_variants is a caller-ordered list (content): the file lists them as given, whatever else happened to the manifest
+        d = c01_diff(imm.expected_doc(desc), json.loads(first))
+        check(d is None, "caller-ordered-list-reordered", lambda: "images: document differs from the reference document of the description: %s" % d)
     if fmt == "extra_files":
         # dump_for_tree is a dump too: it must not change what later dumps write
         import io
